@@ -209,3 +209,24 @@ REGISTRY["C06"] = {
         {"name": "TestC06EventGateway", "checks": {"quick": 150, "thorough": 5000}, "shards": {"quick": 16, "thorough": 16}, "gomaxprocs": [4, 2, 16, 8]},
     ],
 }
+
+REGISTRY["C10"] = {
+    "pkg": "props/c10",
+    "level": "exploration",
+    "level_text": ("rapid-drawn hosts (each task kind, embedded sub-process) with 1..2 boundary events (signal/message; interrupting or not), whose normal and "
+                   "exception paths end in distinct tasks and end events; scripts of events (matching, non-matching, before activation, while the host waits, "
+                   "racing the host's answer in a concurrent burst, after completion, repeated) and answers, in lock-step with the token game: an interrupting "
+                   "event makes the exception task appear once and the normal-path task never (also after a later answer of the host), a non-interrupting one adds "
+                   "an exception token per event, late events do nothing, the instance completes. Three root causes are listed as known findings (C10-F1..F3); "
+                   "the main campaign constructs around them (non-interrupting events, each fired exactly once while the host waits) and the unrestricted campaign "
+                   "keeps them, attributing failures only on matching pattern and symptom."),
+    "level_note": EVENT_TRUST + " Because of the three listed findings the main campaign covers only the part of the property the engine can currently satisfy.",
+    "technique": "rapid property test over generated event/answer scripts incl. event-vs-answer races, lock-step differential against the token-game model",
+    "rule": ("Distinct = descriptor. Non-trivial = at least one boundary event fired (model) or >=2 events delivered."),
+    "assumptions": ["main campaign: boundary events are non-interrupting and each fires exactly once while the host waits (findings C10-F1, C10-F2, C10-F3 constructed around)"],
+    "tests": [
+        {"name": "TestC10Boundary", "checks": {"quick": 100, "thorough": 3000}, "shards": {"quick": 12, "thorough": 16}, "gomaxprocs": [4, 2, 16, 1]},
+        {"name": "TestC10Boundary", "label": "TestC10Boundary-unrestricted", "env": {"VERIF_UNRESTRICTED": "1"},
+         "checks": {"quick": 100, "thorough": 2000}, "shards": {"quick": 4, "thorough": 8}},
+    ],
+}
